@@ -170,6 +170,41 @@ def run(ctx):
         ctx.sample({"url": c["url"], "kind": c["kind"], "importer": c["importer"], "load_paths": c["lps"],
                     "files": c["files"], "expected": c["resolved"], "css": x.get("css")})
     os.remove(tpath)
+    plain_imports(ctx, decoy_dir)
     shutil.rmtree(decoy_dir, ignore_errors=True)
     ctx.assumptions += ["layouts with two same-priority candidates in one location are excluded (property text)",
                         "file contents are marker rules whose value '1 + 1' distinguishes CSS from Sass parsing"]
+
+
+def plain_imports(ctx, decoy_dir):
+    """url(), http(s)://, //, *.css and imports with media/supports modifiers are CSS @import rules: nothing is looked up."""
+    r = C.tlc("MC_PlainImports", cfg_text="SPECIFICATION Spec\nINVARIANT Emit\nCHECK_DEADLOCK FALSE\n", workers=4, timeout=1200)
+    C.tlc_must_pass(r, "MC_PlainImports")
+    ctx.add_tlc(r)
+    cases = r.cases
+    jobs = []
+    for i, c in enumerate(cases):
+        files = {p_: content(p_) for p_ in c["files"]}
+        files["_other.scss"] = ".other { x: y; }\n"
+        jobs.append({"id": i, "src": "\n".join(c["sheet"]) + "\n", "files": files})
+    res = C.run_cases(jobs, PID + "-plain", cwd=decoy_dir)
+    for c, j, x in zip(cases, jobs, res):
+        ctx.count(["plain", c["form"], c["where"], sorted(c["files"])])
+        rep = {"job": j, "form": c["form"], "observed": {k: x.get(k) for k in ("outcome", "css", "err", "fs")}, "spec": "MC_PlainImports.IsPlain"}
+        if x.get("outcome") != "css":
+            ctx.violation("a plain-CSS @import (%s) did not compile: %s" % (c["form"], x.get("outcome")), rep)
+            continue
+        css = x["css"]
+        want = "@import " + c["text"]
+        if want.replace(" ", "") not in css.replace(" ", ""):
+            ctx.violation("plain-CSS @import (%s) was not emitted as a CSS @import rule" % c["form"], rep)
+            continue
+        if any(marker(p_) in css for p_ in c["files"]) or ".real-disk" in css:
+            ctx.violation("a plain-CSS @import (%s) loaded a file" % c["form"], rep)
+            continue
+        touched = [e for e in x.get("fs", []) if "other" not in e.get("norm", "") and e.get("norm") != "stdin"]   # the entry and the Sass import beside it
+        if touched:
+            ctx.violation("a plain-CSS @import (%s) went to the file system: %s" % (c["form"], touched[:3]), rep)
+            continue
+        ctx.validated += 1
+    ctx.extra["plain_css_import_cases"] = len(cases)
